@@ -122,6 +122,14 @@ class C09Monitor(hist.Monitor):
                 ok_c = p in fp["content"] or p in allowed_types or p in pending
                 if p == "<project>":
                     ok_c = False
+                if not ok_c and p.startswith("Types/"):
+                    # a type node that no stored entity used before the op (left behind by earlier removals) is nobody's:
+                    # the entity that now takes the identifier over may bring its own attributes
+                    tid = p.rsplit("/", 1)[1].lower()
+                    users0 = [q for q, r in raw0["nodes"].items() if q not in pending and str(((r.get("type") or {}).get("id")) or "").lower() == tid]
+                    if not users0:
+                        ok_c = True
+                        rec.see("unused-type-node-taken-over")
                 if not ok_c:
                     what = _what_changed(raw0, raw1, p)
                     rec.fail("C09.collateral", op=kind, cls=cls, attr="content:" + _nk(p), detail=f"{kind} ({short(op, 200)}) changed attributes/datasets of {p}: {what}", counted=True)
